@@ -313,7 +313,7 @@ pub fn rand_file(rng: &mut Rng, used: &mut Vec<String>, max_len: usize) -> FileC
     let (mode, link) = match kind {
         0 => (Some(0o120777), Some(rng.pick(&["target", "../x", "/abs/t"]).to_string())),
         1 => (Some(0o040000 | *rng.pick(&[0o755u16, 0o700, 0o1777, 0o2755])), None),
-        2 | 3 | 4 => (Some(0o100000 | *rng.pick(&[0o644u16, 0o600, 0o755, 0o4755, 0o7777, 0o000, 0o444])), None),
+        2 | 3 | 4 => (Some(0o100000 | *rng.pick(&[0o644u16, 0o600, 0o755, 0o4755, 0o7777, 0o000, 0o444, 0o664, 0o666, 0o775, 0o777])), None),
         _ => (None, None),
     };
     let mut flags = vec![];
@@ -407,6 +407,18 @@ pub fn rand_cfg(rng: &mut Rng, max_files: u64, max_len: usize) -> Cfg {
                 f.dest = if rng.chance(1, 2) { format!(".{twin}") } else { twin };
                 cfg.files.push(f);
             }
+        }
+    }
+    // a path that is a proper suffix of another one which sorts before it (/0pre/usr/f1 and /usr/f1)
+    if !cfg.files.is_empty() && rng.chance(1, 3) {
+        let k = rng.below(cfg.files.len() as u64) as usize;
+        let path = cfg.files[k].dest.trim_start_matches('.').to_string();
+        let twin = format!("/0pre{path}");
+        if !used.contains(&twin) && cfg.files[k].mode.map_or(true, |m| m & 0o170000 != 0o040000) {
+            used.push(twin.clone());
+            let mut f = rand_file(rng, &mut used, max_len);
+            f.dest = twin;
+            cfg.files.push(f);
         }
     }
     if max_files > 0 && rng.chance(1, 3) {
